@@ -11,6 +11,7 @@ from common import hx
 from props import c01
 
 FILES = ["Model_core.v", "Model_minerals.v", "Proofs_core.v", "Proofs_minerals.v", "Entry_core.v", "Extract_core.v"]
+FILES += [f for f in MT.GLUE_TIE_FILES if f not in FILES]   # tie T of the glue model
 PROP = "Properties/C09.v"
 
 
@@ -93,9 +94,9 @@ def decode(d):
 
 
 def run(chk):
-    ok, br = proofs.prove(chk, FILES, PROP, groups=("core",), gen_modules=())
+    ok, br = proofs.prove(chk, FILES, PROP, groups=("core",), gen_modules=MT.GLUE_TIE_GEN)
     import pydrex.utils as utils
-    chk.cov["trusted_base"] = common.TRUSTED_COMMON + [
+    chk.cov["trusted_base"] = common.TRUSTED_COMMON + [MT.GLUE_TIE_TRUSTED,
         "hand-written Model_minerals.gbs_orient / gbs_fracs / update, tied by exact comparison with pydrex.utils.apply_gbs (public function) and by trace validation of whole updates",
         "the reference orientations are those of the start of the update; that the write-back of intermediate steps never reaches the integrator is a property of SciPy (LSODA.y is a copy), observed by the trace validation",
     ]
